@@ -384,6 +384,9 @@ func Check(res *Result) []Violation {
 				if ji[j].start == 0 || ji[j].start < cancelSeq {
 					continue
 				}
+				if sd.Jobs[j].Ctx != CtxShared {
+					continue // enqueued with a context of its own: the scheduler's context does not govern it
+				}
 				switch {
 				case down[j]:
 					add("C09", "started-after-cancel:dependent", fmt.Sprintf("s%d: job %d depends on the job that cancelled the context (#%d) and was still started (#%d)", si, j, cancelSeq, ji[j].start))
